@@ -585,4 +585,28 @@ func c07EvalUnusedAnywhere(t *fw.T, c *fw.Case) {
 		}
 		t.Distinct(fmt.Sprintf("unused before %s depth%d", s.Kind, s.Depth))
 	}
+	// ... in front of everything (definitions are taken out before anything looks at what the first directive is), at the
+	// very end, and in a file of definitions that is included in front of everything
+	for _, v := range []struct {
+		where string
+		doc   run.Doc
+	}{
+		{"before the first directive", run.Single([]byte(def + base.Text))},
+		{"after the last directive", run.Single([]byte(base.Text + def))},
+		{"in a file included before the first directive", run.Doc{Root: "root.jst", Files: map[string][]byte{"root.jst": []byte("INCLUDE macros.jst\n" + base.Text), "macros.jst": []byte(def)}}},
+	} {
+		if v.where == "after the last directive" && !strings.HasSuffix(base.Text, "\n") {
+			continue
+		}
+		d := v.doc
+		d.FixedSeed = true
+		o := t.Exec(d)
+		t.Count("unused_macro_checked")
+		if o.Outcome != run.Accepted || !bytes.Equal(o.JSON, ob.JSON) {
+			c.Docs = []run.Doc{db, d}
+			t.Violation("unused-macro-contributes:"+v.where, fmt.Sprintf("the definition of a macro that is never pasted, written %s, changes the result: %s\n%s", v.where, describe(o), string(d.Files[d.Root])))
+			return
+		}
+		t.Distinct("unused " + v.where)
+	}
 }
